@@ -84,9 +84,17 @@ pub fn bfs(spec: &BfsSpec) -> BfsResult {
         match &r[0] {
             CaseRes::Done(v) => {
                 let rep: StepReport = serde_json::from_value(v.clone()).unwrap_or_default();
-                if rep.status == "ok" {
+                if rep.status == "ok" || rep.status == "known" {
                     seen.insert(rep.key.clone());
                     res.states = 1;
+                    res.transitions = 1;
+                    for (k, v) in &rep.counters {
+                        *res.counters.entry(k.clone()).or_insert(0) += v;
+                    }
+                    for f in &rep.findings {
+                        let v = Violation { hist: vec![], script: vec!["(seed state only)".into()], detail: rep.detail.clone(), seed_state: spec.seed_label.clone() };
+                        res.known.entry(f.clone()).or_insert_with(|| (0, v)).0 += 1;
+                    }
                 } else {
                     res.machinery.push(format!("seed state '{}' does not execute cleanly: {} {}", spec.seed_label, rep.status, rep.detail));
                     return res;
@@ -169,11 +177,20 @@ pub fn bfs(spec: &BfsSpec) -> BfsResult {
                         }
                         "tainted" => {
                             res.tainted += 1;
+                            if !rep.stop && !rep.key.is_empty() && seen.insert(rep.key.clone()) {
+                                new_states += 1;
+                                next.push(h);
+                            }
                         }
                         "known" => {
                             for f in &rep.findings {
                                 let e = res.known.entry(f.clone()).or_insert_with(|| (0, mk(rep.detail.clone())));
                                 e.0 += 1;
+                            }
+                            // engines that attach a finding to a sub-case (a crash point) keep the history alive
+                            if !rep.stop && seen.insert(rep.key.clone()) {
+                                new_states += 1;
+                                next.push(h);
                             }
                         }
                         "violation" => {
